@@ -274,6 +274,23 @@ class Interp:
             if any(isinstance(p, S.SymStr) for p in parts):
                 return S.SymStr.join(bself, parts)
             return bself.join(parts)
+        if isinstance(bself, dict) and name in ("get", "setdefault", "pop", "__getitem__", "__contains__") and args and (
+                S.is_sym_key(args[0]) or any(isinstance(k, S.SymKey) for k in bself)) and not (isinstance(args[0], S.SymInt) and not args[0]._wide()):
+            k = S.dict_find(bself, args[0])
+            if name == "__contains__":
+                return k is not None
+            if k is not None:
+                return bself.pop(k) if name == "pop" else bself[k]
+            if name == "get":
+                return args[1] if len(args) > 1 else None
+            if name == "pop":
+                if len(args) > 1:
+                    return args[1]
+                raise KeyError("<symbolic key>")
+            if name == "__getitem__":
+                raise KeyError("<symbolic key>")
+            bself[S.SymKey(args[0]) if S.is_sym_key(args[0]) else args[0]] = args[1] if len(args) > 1 else None
+            return args[1] if len(args) > 1 else None
         if isinstance(bself, dict) and name in ("get", "setdefault", "__getitem__") and args and isinstance(args[0], S.SymInt):
             # fork over the keys present (|keys|+1 paths) instead of over all values of the symbolic key
             for k in list(bself):
@@ -458,6 +475,10 @@ class Interp:
         elif isinstance(t, ast.Subscript):
             obj = self.eval(t.value, env, globs)
             key = self.eval_slice(t.slice, env, globs)
+            if isinstance(obj, dict) and (V.is_sym_key(key) or any(isinstance(k, V.SymKey) for k in obj)) and not (isinstance(key, V.SymInt) and not key._wide()):
+                k = V.dict_find(obj, key)
+                obj[k if k is not None else (V.SymKey(key) if V.is_sym_key(key) else key)] = v
+                return
             if isinstance(obj, dict) and isinstance(key, V.SymInt):
                 # dictionary store with a symbolic key: an existing equal key, else one path per feasible value
                 for k in list(obj):
@@ -514,6 +535,11 @@ class Interp:
     def e_Subscript(self, e, env, globs):
         obj = self.eval(e.value, env, globs)
         key = self.eval_slice(e.slice, env, globs)
+        if isinstance(obj, dict) and (V.is_sym_key(key) or any(isinstance(k, V.SymKey) for k in obj)):
+            k = V.dict_find(obj, key)
+            if k is None:
+                raise KeyError("<symbolic key>")
+            return obj[k]
         if isinstance(key, V.SymInt) and isinstance(obj, (list, tuple, dict, bytes, bytearray, memoryview, str)):
             if isinstance(obj, (bytes, bytearray, memoryview)):
                 return V.SymBytes(list(bytes(obj)))[key]
@@ -608,6 +634,8 @@ class Interp:
         return res
 
     def _contains(self, container, item):
+        if isinstance(container, dict) and (V.is_sym_key(item) or any(isinstance(k, V.SymKey) for k in container)):
+            return V.dict_find(container, item) is not None
         if isinstance(container, (list, tuple)) and (isinstance(item, (V.SymInt, V.SymSeq)) or any(isinstance(x, (V.SymInt, V.SymSeq)) for x in container)):
             return any(truth(x == item) for x in container)
         if isinstance(item, V.SymInt):
@@ -768,13 +796,61 @@ def _enum_lookup(cls, v):
             return v
         raise ValueError(f"<symbolic> is not a valid {cls.__name__}")
     if issubclass(cls, int) and "_missing_" in cls.__dict__:
-        # IntEnum with a catch-all _missing_ (every int is accepted): members compare equal to ints, keep the symbolic int
-        return v
+        # IntEnum with a catch-all _missing_ (every int is accepted).  If the placeholder members it creates have the right integer value,
+        # members compare equal to ints and the symbolic int itself can stand for the member.  If they do not (int.__new__(cls) without the
+        # value gives 0), the model has to be faithful to that: a proxy whose integer value is the placeholder's and whose .value is symbolic.
+        q = _missing_quirk(cls)
+        if q is None:
+            return v
+        for m in cls:
+            if isinstance(m.value, int) and truth(v == m.value):
+                return m
+        return EnumProxy(q, v, cls)
     for m in cls:
         if bool(v == m.value):
             return m
     c = Engine.current.concretize(v)
     return cls(c)  # _missing_ / ValueError natively
+
+
+_QUIRKS = {}
+
+
+def _missing_quirk(cls):
+    """None if cls(<unknown value>) is an int equal to that value, else the integer value such placeholder members really have"""
+    if cls not in _QUIRKS:
+        known = {m.value for m in cls}
+        probe = next(x for x in range(1, 1 << 16) if x not in known)
+        try:
+            m = cls(probe)
+            _QUIRKS[cls] = None if int(m) == probe else int(m)
+            cls._value2member_map_.pop(probe, None)
+        except Exception:
+            _QUIRKS[cls] = None
+    return _QUIRKS[cls]
+
+
+class EnumProxy(int):
+    """placeholder member of an IntEnum whose _missing_ builds members with a fixed integer value: behaves as that integer, .value is the
+    (symbolic) value it was created for"""
+
+    def __new__(cls, intval, value, enum_cls):
+        o = int.__new__(cls, intval)
+        o.value = o._value_ = value
+        o.enum_cls = enum_cls
+        o.name = o._name_ = "<unknown member>"
+        return o
+
+    def __repr__(self):
+        return f"<{self.enum_cls.__name__} unknown>"
+
+    __str__ = __repr__
+
+    def __format__(self, spec):
+        return "<sym>"
+
+    def __hash__(self):
+        return int.__hash__(self)
 
 
 class RegexProbe(EngineSignal):
